@@ -3,6 +3,7 @@ package main
 import (
 	"fmt"
 	"go/constant"
+	"go/token"
 	"go/types"
 	"sort"
 	"strings"
@@ -455,4 +456,175 @@ func derefType(t types.Type) types.Type {
 		return p.Elem()
 	}
 	return t
+}
+
+// canonCmp brings a comparison fact into canonical form "a OP b holds" with OP in <, <=, ==, !=
+// (polarity folded into the operator, > and >= turned around), so that a guard written as
+// "x > 0" on its false edge and one written as "x <= 0" on its true edge match the same pattern.
+func canonCmp(t *Term, pol bool) (a *Term, op string, b *Term, ok bool) {
+	t, pol = normFact(t, pol)
+	if t == nil || t.Op != "bin" || len(t.Args) != 2 {
+		return nil, "", nil, false
+	}
+	op = t.Name
+	switch op {
+	case "<", "<=", ">", ">=", "==", "!=":
+	default:
+		return nil, "", nil, false
+	}
+	if !pol {
+		op = map[string]string{"<": ">=", "<=": ">", ">": "<=", ">=": "<", "==": "!=", "!=": "=="}[op]
+	}
+	a, b = t.Args[0], t.Args[1]
+	if op == ">" || op == ">=" {
+		a, b = b, a
+		op = map[string]string{">": "<", ">=": "<="}[op]
+	}
+	return a, op, b, true
+}
+
+// callerHolds: the unexported functions of pkg all of whose static call sites (at least one) are
+// reached with the mutex field mu held — in the caller itself or, transitively, because the caller
+// is such a function. Their bodies run under the lock although they do not take it.
+func callerHolds(p *Prog, pkg, mu string) map[*ssa.Function]bool {
+	type site struct {
+		caller *ssa.Function
+		call   ssa.Instruction
+	}
+	sites := map[*ssa.Function][]site{}
+	var fns []*ssa.Function
+	for _, fn := range p.Funcs {
+		pk := fnPkg(fn)
+		if pk == nil || pk.Pkg.Path() != pkg || fn.Blocks == nil {
+			continue
+		}
+		fns = append(fns, fn)
+		for _, b := range fn.Blocks {
+			for _, in := range b.Instrs {
+				if ci, ok := in.(ssa.CallInstruction); ok {
+					if cal := ci.Common().StaticCallee(); cal != nil && fnPkg(cal) != nil && fnPkg(cal).Pkg.Path() == pkg {
+						if _, isGo := in.(*ssa.Go); isGo {
+							sites[cal] = append(sites[cal], site{nil, in}) // a goroutine does not inherit the lock
+						} else {
+							sites[cal] = append(sites[cal], site{fn, in})
+						}
+					}
+				}
+			}
+		}
+	}
+	held := map[*ssa.Function]bool{}
+	graphs := map[*ssa.Function]*Graph{}
+	for changed := true; changed; {
+		changed = false
+		for _, fn := range fns {
+			if held[fn] || fn.Parent() != nil || (fn.Object() != nil && fn.Object().Exported()) || len(sites[fn]) == 0 {
+				continue
+			}
+			all := true
+			for _, s := range sites[fn] {
+				if s.caller == nil {
+					all = false
+					break
+				}
+				if held[topParent(s.caller)] {
+					continue
+				}
+				g := graphs[s.caller]
+				if g == nil {
+					g = BuildECFG(p, s.caller, ExpandOpts{MaxDepth: 0})
+					graphs[s.caller] = g
+				}
+				ok := false
+				for _, nd := range g.Nodes {
+					if nd.Kind == NInstr && nd.In == s.call {
+						ok = heldAt(g, nd, mu)
+					}
+					if dc, isD := nd.In.(deferredCall); isD && ssa.Instruction(dc.Defer) == s.call {
+						ok = heldAt(g, nd, mu)
+					}
+				}
+				if !ok {
+					all = false
+					break
+				}
+			}
+			if all {
+				held[fn] = true
+				changed = true
+			}
+		}
+	}
+	return held
+}
+
+// ownPkgOpts: look through the helpers of the package itself, keep everything else a leaf.
+func ownPkgOpts(pkg string, depth int) ExpandOpts {
+	return ExpandOpts{MaxDepth: depth, Stop: func(f *ssa.Function) bool {
+		pk := fnPkg(f)
+		return pk == nil || pk.Pkg.Path() != pkg
+	}}
+}
+
+// litView is a struct literal a function may return, with the context its stored values are to
+// be rendered in (the literal of a constructor helper is seen with the helper's parameters bound
+// to the call that returned it).
+type litView struct {
+	Al  *ssa.Alloc
+	Ctx *Ctx
+}
+
+// returnedLits: the struct literals a returned value may be — built in place, chosen by a phi, or
+// built by a constructor helper of the repository (looked through up to depth). nil if some
+// alternative is not a literal.
+func (p *Prog) returnedLits(v ssa.Value, ctx *Ctx, depth int) []litView {
+	switch x := v.(type) {
+	case *ssa.UnOp:
+		if al, ok := x.X.(*ssa.Alloc); ok && x.Op == token.MUL {
+			return []litView{{al, ctx}}
+		}
+	case *ssa.Alloc:
+		return []litView{{x, ctx}}
+	case *ssa.Phi:
+		var out []litView
+		for _, e := range x.Edges {
+			vs := p.returnedLits(e, ctx, depth)
+			if vs == nil {
+				return nil
+			}
+			out = append(out, vs...)
+		}
+		return out
+	case *ssa.Call:
+		callee := x.Common().StaticCallee()
+		if depth <= 0 || callee == nil || !p.InRepo(callee) || (ctx != nil && ctx.has(callee)) || callee.Signature.Results().Len() != 1 {
+			return nil
+		}
+		d := 0
+		if ctx != nil {
+			d = ctx.Depth + 1
+		}
+		cctx := &Ctx{Parent: ctx, Site: x, Fn: callee, Depth: d}
+		var out []litView
+		for _, b := range callee.Blocks {
+			if ret, ok := b.Instrs[len(b.Instrs)-1].(*ssa.Return); ok {
+				vs := p.returnedLits(spilledResult(ret, 0), cctx, depth-1)
+				if vs == nil {
+					return nil
+				}
+				out = append(out, vs...)
+			}
+		}
+		return out
+	}
+	return nil
+}
+
+// Field: the values stored into the field path of the literal, as terms in the view's context.
+func (lv litView) Field(path string) []*Term {
+	var out []*Term
+	for _, v := range litStores(lv.Al)[path] {
+		out = append(out, TermOf(v, lv.Ctx))
+	}
+	return out
 }
